@@ -1,4 +1,5 @@
 SPECIFICATION Spec
+CONSTANT UseCb = FALSE
 CONSTANT Points <- PointsThorough
-INVARIANTS Sound ItIsPeeling CountersSane PartialSums NoNullDeref ClaimTruthful
+INVARIANTS Sound ItIsPeeling CountersSane PartialSums NoNullDeref ClaimTruthful LedgerOK NoLeakAtRelease
 CHECK_DEADLOCK FALSE
